@@ -946,6 +946,12 @@ func (vm *VM) execBuildArray() error {
 	}
 
 	elemCount := int(operand)
+	// The operand comes from the file: never size an allocation by it before
+	// knowing the stack holds that many values (a 200-byte file claiming
+	// 2^31 elements took the process down with "out of memory").
+	if elemCount < 0 || elemCount > len(vm.stack) {
+		return fmt.Errorf("stack underflow")
+	}
 	arr := make([]Value, elemCount)
 
 	// Pop in reverse order
@@ -1256,6 +1262,10 @@ func (vm *VM) execCall() error {
 	}
 
 	argCount := int(operand)
+	// As in execBuildArray: the count is untrusted until checked against the stack.
+	if argCount < 0 || argCount > len(vm.stack) {
+		return fmt.Errorf("stack underflow")
+	}
 
 	// Pop arguments
 	args := make([]Value, argCount)
